@@ -50,7 +50,7 @@ func c10summary(fwd, bwd []c10kv) string {
 	return fmt.Sprintf("n %d h %d r %d", len(fwd), c10hash(fwd), c10hash(bwd))
 }
 
-func c10keys(r *rand.Rand, tr *lib.Trace) []string {
+func c10keys(r *rand.Rand, tr *lib.Trace, split *int) []string {
 	set := map[string]bool{}
 	n := r.Intn(120)
 	switch r.Intn(10) {
@@ -61,8 +61,11 @@ func c10keys(r *rand.Rand, tr *lib.Trace) []string {
 	case 2:
 		n = 200 + r.Intn(400)
 	}
-	kind := r.Intn(5)
+	kind := r.Intn(8)
 	tr.Count(fmt.Sprintf("keykind=%d", kind))
+	if kind >= 5 {
+		return c10keysLeaf(r, tr, kind, split)
+	}
 	var prefix string
 	if kind == 1 {
 		prefix = strings.Repeat("p", 20+r.Intn(300))
@@ -96,6 +99,86 @@ func c10keys(r *rand.Rand, tr *lib.Trace) []string {
 	return keys
 }
 
+// c10keysLeaf: key sets aimed at the byte-size logic of leaf nodes.
+//
+//	5: several groups, each with its own long prefix (prefix compression lets many keys into a
+//	   leaf), interleaved with short keys that share nothing — the compression ratio of a leaf
+//	   changes at a single add
+//	6: boundary: about splitCount keys without a common prefix whose total length is within a
+//	   few bytes of what a node can hold
+//	7: as 6 with a common prefix of random length (0..300, straddling the 255 cap)
+func c10keysLeaf(r *rand.Rand, tr *lib.Trace, kind int, split *int) []string {
+	set := map[string]bool{}
+	switch kind {
+	case 5:
+		*split = []int{20, 100, 100}[r.Intn(3)]
+		ngroups := 1 + r.Intn(4)
+		for g := 0; g < ngroups; g++ {
+			pre := string(rune('b'+2*g)) + strings.Repeat(string(rune('p'+g)), 60+r.Intn(700))
+			fill := strings.Repeat("f", r.Intn(60))
+			cnt := 5 + r.Intn(90)
+			for i := 0; i < cnt; i++ {
+				set[pre+fmt.Sprintf("%03d", r.Intn(400))+fill] = true
+			}
+			// keys that sort between / after the groups and share nothing with them
+			for i := r.Intn(4); i > 0; i-- {
+				set[string(rune('a'+2*g+r.Intn(3)))+fmt.Sprintf("%d", r.Intn(50))] = true
+			}
+		}
+		if r.Intn(2) == 0 {
+			set["zzz"] = true
+		}
+	default:
+		if r.Intn(3) > 0 {
+			*split = 100
+		}
+		n := *split
+		if n > 120 {
+			n = 120
+		}
+		n += r.Intn(3) - 1
+		if n < 2 {
+			n = 2
+		}
+		pre := ""
+		if kind == 7 {
+			pre = strings.Repeat("q", r.Intn(300))
+		}
+		// total key bytes so that 4 + 7n + fields is maxNodeSize + delta
+		delta := r.Intn(17) - 8
+		total := maxNodeSize - 4 - 7*n + delta + (n-1)*min(255, len(pre))
+		each := total / n
+		if each < len(pre)+5 {
+			each = len(pre) + 5
+		}
+		if each > 3900 { // stay below the ixkey entry limit (small splits do not reach the boundary then)
+			each = 3900
+		}
+		extra := total - each*n
+		if extra < 0 || extra > n {
+			extra = 0
+		}
+		for i := 0; i < n; i++ {
+			l := each
+			if i < extra {
+				l++
+			}
+			// distinct first bytes after pre: the common prefix of the set is exactly pre
+			k := pre + string(rune('A'+i%40)) + fmt.Sprintf("%03d", i)
+			if len(k) < l {
+				k += strings.Repeat("v", l-len(k))
+			}
+			set[k] = true
+		}
+	}
+	keys := make([]string, 0, len(set))
+	for k := range set {
+		keys = append(keys, k)
+	}
+	sort.Strings(keys)
+	return keys
+}
+
 func TestVerifC10(t *testing.T) {
 	tr := lib.Open()
 	defer tr.Close()
@@ -104,7 +187,6 @@ func TestVerifC10(t *testing.T) {
 	for ci := 0; ci < n; ci++ {
 		split := []int{3, 4, 7, 20, 100}[r.Intn(5)]
 		old := SetSplit(split)
-		tr.Count(fmt.Sprintf("split=%d", split))
 		c10one(tr, r, ci, split)
 		SetSplit(old)
 	}
@@ -113,13 +195,16 @@ func TestVerifC10(t *testing.T) {
 func c10one(tr *lib.Trace, r *rand.Rand, ci, split int) {
 	st := stor.HeapStor(256 * 1024)
 	st.Alloc(1)
-	keys := c10keys(r, tr)
+	keys := c10keys(r, tr, &split)
+	SetSplit(split)
+	tr.Count(fmt.Sprintf("split=%d", split))
 	model := map[string]uint64{}
 	nextOff := uint64(1000)
 	hist := fmt.Sprintf("case %d split %d nkeys %d", ci, split, len(keys))
 	var sb strings.Builder
 	fmt.Fprintf(&sb, "build %d", split)
 	var bt *T
+	dupAccepted := false
 	if msg := lib.Catch(func() {
 		b := NewBuilder(st)
 		for _, k := range keys {
@@ -127,13 +212,52 @@ func c10one(tr *lib.Trace, r *rand.Rand, ci, split int) {
 			b.Add(k, nextOff)
 			model[k] = nextOff
 			fmt.Fprintf(&sb, " %s %d", lib.X(k), nextOff)
+			if r.Intn(25) == 0 { // duplicate key: must be refused and leave the tree unchanged
+				tr.Count("builder-dup")
+				if b.Add(k, nextOff+5000) {
+					dupAccepted = true
+				}
+			}
 		}
 		bt = b.Finish()
 	}); msg != "" {
 		tr.Fail("builder-panic", fmt.Sprintf("%s maxkeylen %d :: %s", hist, c10maxlen(keys), msg))
 		return
 	}
+	if dupAccepted {
+		tr.Fail("builder-accepts-duplicate", hist)
+		return
+	}
 	tr.Count(fmt.Sprintf("levels=%d", bt.TreeLevels()))
+	// the builder's leaf packing (key count : byte size of every leaf) against the Lean mirror
+	{
+		var lv, q strings.Builder
+		var walk func(level int, off uint64)
+		walk = func(level int, off uint64) {
+			if level < bt.treeLevels {
+				nd := bt.readTree(off)
+				for i := 0; i < nd.noffs(); i++ {
+					walk(level+1, nd.offset(i))
+				}
+			} else {
+				nd := bt.readLeaf(off)
+				if lv.Len() > 0 {
+					lv.WriteByte(' ')
+				}
+				fmt.Fprintf(&lv, "%d:%d", nd.nkeys(), len(nd))
+			}
+		}
+		if msg := lib.Catch(func() { walk(0, bt.root) }); msg != "" {
+			tr.Fail("node-walk-panic", hist+" after build :: "+msg)
+			return
+		}
+		fmt.Fprintf(&q, "leaves %d", split)
+		for _, k := range keys {
+			q.WriteByte(' ')
+			q.WriteString(lib.X(k))
+		}
+		tr.Q(q.String(), lv.String())
+	}
 	if !c10check(tr, bt, model, hist+" after build", sb.String(), r) {
 		return
 	}
@@ -156,6 +280,9 @@ func c10one(tr *lib.Trace, r *rand.Rand, ci, split int) {
 				k = base + string(rune('a'+r.Intn(3)))
 				if r.Intn(4) == 0 && len(base) > 0 {
 					k = base[:len(base)-1]
+				}
+				if r.Intn(5) == 0 { // a short key that shares no prefix with its neighbours
+					k = string(rune('a'+r.Intn(26))) + fmt.Sprintf("%d", r.Intn(100))
 				}
 			}
 			if touched[k] || len(k) > 3900 {
@@ -220,8 +347,12 @@ func c10one(tr *lib.Trace, r *rand.Rand, ci, split int) {
 			}
 			sig := "merge-panic"
 			if strings.Contains(msg, "too large") {
-				// keys near the maximum size sharing long prefixes: node overflow
-				sig = "merge-panic-node-too-large"
+				if c10maxlen(keys) >= 1500 {
+					// keys near the maximum size sharing long prefixes (KF-C10-2)
+					sig = "merge-panic-node-too-large"
+				} else {
+					sig = "merge-panic-oversize"
+				}
 			}
 			tr.Fail(sig, fmt.Sprintf("%s maxkeylen %d :: %s :: %s", hist, c10maxlen(keys), msg, qs))
 			return
@@ -293,7 +424,14 @@ func c10check(tr *lib.Trace, bt *T, model map[string]uint64, hist, op string, r 
 	if nodeMsg != "" {
 		sig := "node-invariant"
 		if strings.Contains(nodeMsg, "has size") {
-			sig = "node-too-large-stored" // same family as merge-panic-node-too-large (huge keys)
+			switch {
+			case strings.HasSuffix(hist, "after build"):
+				sig = "builder-oversize-node" // produced by the bulk Builder
+			case c10maxlen(keys) >= 1500:
+				sig = "node-too-large-stored" // MergeAndSave with near-maximum-size keys (KF-C10-2)
+			default:
+				sig = "merge-oversize-node" // MergeAndSave with ordinary keys
+			}
 		}
 		tr.Fail(sig, fmt.Sprintf("%s maxkeylen %d :: %s", hist, c10maxlen(keys), nodeMsg))
 		return false
